@@ -111,7 +111,10 @@ def decide_obligation(o, timeout, smtdir, logdir, val, env):
         if rep:
             try:
                 cmdline, violated = rep(m)
-                js = engine.native([cmdline], os.path.join(logdir, "native.log"))[0]
+                if isinstance(cmdline, list):
+                    js = engine.native(cmdline, os.path.join(logdir, "native.log"))
+                else:
+                    js = engine.native([cmdline], os.path.join(logdir, "native.log"))[0]
                 native_out = js
                 reproduced = bool(violated(js))
             except Exception as e:  # noqa: BLE001
